@@ -101,3 +101,104 @@ def spec(e, leaf=None):
     if isinstance(e, lift.VS) or e.is_number:
         return Sem(e, zero_vec(), z3.BoolVal(True))
     raise lift.LiftUnsupported(f"spec: node {type(e).__name__}")
+
+
+# ----------------------------------------------------------------------
+# inference mode (C06): leaves may be dimensioned symbols / functions whose values are unknown
+ISPEC_ASSUME = []
+
+
+class ISem:
+
+    def __init__(self, dim, wf, anyf):
+        self.dim = dim
+        self.wf = wf
+        self.anyf = anyf     # z3 Bool: the term is KNOWN to be zero-valued (numeric zero, zero quantity, product containing one)
+
+
+def _ipick(ts):
+    d = ts[-1].dim
+    for t in reversed(ts[:-1]):
+        d = [z3.If(t.anyf, x, y) for x, y in zip(d, t.dim)]
+    return d
+
+
+def _icompat(ts):
+    cons = []
+    for i in range(len(ts)):
+        for j in range(i + 1, len(ts)):
+            cons.append(z3.Or(ts[i].anyf, ts[j].anyf, vec_eq(ts[i].dim, ts[j].dim)))
+    return z3.And(cons) if cons else z3.BoolVal(True)
+
+
+def pure_number(e):
+    return all(isinstance(a, lift.VS) for a in e.free_symbols) and not e.atoms(SymQuantity)
+
+
+def ispec(e, nested=False):
+    """dimension / well-formedness of symbolic inference, from the statement of C06"""
+    e = sp.sympify(e)
+    T, F = z3.BoolVal(True), z3.BoolVal(False)
+    if isinstance(e, SymQuantity):
+        return ISem(to_vec(e.dimension), T, S().z(e.scale_factor) == 0)
+    if e.free_symbols and pure_number(e):
+        return ISem(zero_vec(), T, S().z(e) == 0)                   # a plain number (symbolic value): zero iff its value is zero
+    if hasattr(e, "dimension") and isinstance(getattr(e, "dimension"), Dimension):
+        return ISem(to_vec(e.dimension), T, F)                      # declared symbol
+    if isinstance(e, sp.Derivative):
+        f = e.expr
+        d = to_vec(getattr(f.func, "dimension", sp.physics.units.Dimension(1)))
+        for v, n in e.variable_count:
+            vd = ispec(v, True).dim
+            d = [a - int(n) * b for a, b in zip(d, vd)]
+        return ISem(d, T, F)
+    if isinstance(e, sp.Mul):
+        ts = [ispec(a, True) for a in e.args]
+        d = zero_vec()
+        for t in ts:
+            d = [x + y for x, y in zip(d, t.dim)]
+        return ISem(d, z3.And([t.wf for t in ts]), z3.Or([t.anyf for t in ts]))
+    if isinstance(e, sp.Pow):
+        b, x = ispec(e.base, True), ispec(e.exp, True)
+        xv = S().z(_value(e.exp))
+        # outside the claim: a power whose base is a known zero (its value is zero but it is not a literal zero term)
+        ISPEC_ASSUME.append(z3.Not(b.anyf))
+        # outside the claim: an exponent that is a known zero but carries a dimension (0 m): the statement's zero exception
+        # names sums/min/max only, the library treats a zero product as a plain number
+        ISPEC_ASSUME.append(z3.Or(z3.Not(x.anyf), vec_zero(x.dim)))
+        # the statement excepts zero terms only for sums/min/max: an exponent must be dimensionless, full stop
+        return ISem([c * xv for c in b.dim], z3.And(b.wf, x.wf, vec_zero(x.dim)), F)
+    if isinstance(e, (sp.Add, MinMaxBase)):
+        ts = [ispec(a, True) for a in e.args]
+        anyf = z3.And([t.anyf for t in ts])
+        if nested and pure_number(_value(e)) and not isinstance(e, MinMaxBase):
+            # outside the claim: a nested numeric sum that cancels to zero without all of its terms being zero
+            ISPEC_ASSUME.append(z3.Or(S().z(_value(e)) != 0, anyf))
+        return ISem(_ipick(ts), z3.And([t.wf for t in ts] + [_icompat(ts)]), anyf)
+    if isinstance(e, sp.Abs):
+        t = ispec(e.args[0], nested)
+        return ISem(t.dim, t.wf, t.anyf)
+    if isinstance(e, sp.Function) or isinstance(e, sp.core.function.AppliedUndef):
+        ts = [ispec(a, True) for a in e.args]
+        d = getattr(e.func, "dimension", None)
+        return ISem(to_vec(d) if isinstance(d, Dimension) else zero_vec(), z3.And([t.wf for t in ts]) if ts else T, F)
+    if e.is_number:
+        return ISem(zero_vec(), T, z3.BoolVal(bool(e == 0) or e in (sp.oo, -sp.oo, sp.nan, sp.zoo)))
+    if isinstance(e, lift.VS):
+        return ISem(zero_vec(), T, S().z(e) == 0)
+    if isinstance(e, sp.Symbol):
+        return ISem(zero_vec(), T, F)
+    raise lift.LiftUnsupported(f"ispec: node {type(e).__name__}")
+
+
+def _value(e):
+    """value expression with every quantity replaced by its scale factor"""
+    e = sp.sympify(e)
+    reps = {q: q.scale_factor for q in e.atoms(SymQuantity)}
+    return e.xreplace(reps) if reps else e
+
+
+def quantity_handler(enc, e):
+    if isinstance(e, SymQuantity):
+        return enc.tr(e.scale_factor)
+    return None
